@@ -287,7 +287,7 @@ func genSquare(class string, n int, r *prng.Rand) sqInput {
  * -------------------------------------------------------------------------- */
 
 var symClasses = []string{"distinct", "repeated", "clustered", "zero-eig", "indefinite", "identity", "diagonal", "tridiagonal", "small-int", "graded", "zero-row-col"}
-var spdClasses = []string{"distinct", "repeated", "clustered", "identity", "diagonal", "tridiagonal", "small-int", "graded", "gram"}
+var spdClasses = []string{"distinct", "repeated", "clustered", "identity", "diagonal", "tridiagonal", "small-int", "graded", "gram", "early-offdiag"}
 
 // genSym draws a symmetric matrix; spd restricts to positive definite ones
 // with kappa_2 <= kmax.
@@ -389,6 +389,39 @@ func genSym(class string, n int, spd bool, kmax float64, r *prng.Rand) *la.Mat {
 		}
 		base.Symmetrize()
 		return base
+	case "early-offdiag":
+		// comfortably positive definite, but an early column with large
+		// off-diagonal entries is followed by small pivots: A = L D L^T with a
+		// big d_0, big l_i0 and small later d_j (directed witness
+		// [[4,2,0],[2,1.5,0],[0,0,1]] embedded now and then)
+		if n >= 3 && r.Chance(0.15) {
+			a := la.Identity(n)
+			a.Set(0, 0, 4)
+			a.Set(0, 1, 2)
+			a.Set(1, 0, 2)
+			a.Set(1, 1, 1.5)
+			return a
+		}
+		l := la.Identity(n)
+		d := make([]float64, n)
+		lead := r.Intn((n + 1) / 2)
+		for j := 0; j < n; j++ {
+			d[j] = r.Uniform(0.3, 1)
+			if j <= lead {
+				d[j] = r.Uniform(2, 6)
+			}
+			for i := j + 1; i < n; i++ {
+				switch {
+				case j <= lead:
+					l.Set(i, j, r.Uniform(0.3, 0.7)*[]float64{1, -1}[r.Intn(2)])
+				case r.Chance(0.3):
+					l.Set(i, j, r.Uniform(-0.2, 0.2))
+				}
+			}
+		}
+		a := la.Mul(la.Mul(l, la.Diag(d)), l.T())
+		a.Symmetrize()
+		return a
 	case "gram":
 		b := la.New(n, n)
 		for i := range b.A {
